@@ -2,7 +2,7 @@
     Only statements; each is closed by a lemma of Evm/SupplyProofs.v / Evm/JournalProofs.v. *)
 From Coq Require Import ZArith List.
 From stdpp Require Import gmap.
-From HV Require Import Evm.ExecModel Evm.JournalProofs Evm.SupplyProofs Evm.ConservationProofs Evm.LazyProofs Evm.Witnesses.
+From HV Require Import Evm.ExecModel Evm.JournalProofs Evm.SupplyProofs Evm.ConservationProofs Evm.LazyProofs Evm.NoMintProofs Evm.Witnesses.
 Local Open Scope Z_scope.
 
 (** Exact accounting of the StateDB commit: for every dirty account the bank balance
@@ -51,6 +51,30 @@ Theorem C02_pure_transaction_conserves_supply :
     supply (fst (run_tx order W0 value (TopCall c body))) = supply W0.
 Proof. exact pure_run_tx_conserves_supply. Qed.
 Print Assumptions C02_pure_transaction_conserves_supply.
+
+(** With SELFDESTRUCT anywhere in the call tree (self-beneficiary, repeated, inside reverted frames,
+    value sent to dead contracts): pure EVM code NEVER MINTS.  The supply after the transaction is at
+    most the supply before; what is missing is what self-destructed contracts held when they were
+    deleted, the sanctioned burn.  [okv]: call values are non-negative, call targets and beneficiaries
+    are in the commit's address list; [bank_nn]: bank balances are non-negative. *)
+Theorem C02_pure_transaction_never_mints :
+  forall order W0 value c body,
+    NoDup order -> world_ok W0 -> bank_nn W0 -> (forall a, a ∈ wexists W0 -> a ∈ order) -> 0%N ∈ order -> c ∈ order ->
+    0 <= value -> forallb pure body = true -> forallb (okv order) body = true ->
+    supply (fst (run_tx order W0 value (TopCall c body))) <= supply W0.
+Proof. exact pure_run_tx_never_mints. Qed.
+Print Assumptions C02_pure_transaction_never_mints.
+
+(** non-vacuity: all premises hold for the state and address order the implementation ran witness
+    w_sd_to_self in, and the inequality is strict there (the contract burns its 4025) *)
+Theorem C02_never_mints_premises_hold_example :
+  let x := w_sd_to_self in
+  let W0 := wit_world x in let order := wit_order x in
+  NoDup order /\ world_ok W0 /\ bank_nn W0 /\ (forall a, a ∈ wexists W0 -> a ∈ order) /\ 0%N ∈ order /\ 2%N ∈ order /\
+  forallb pure [ISelfdestruct 2%N] = true /\ forallb (okv order) [ISelfdestruct 2%N] = true /\
+  supply (fst (run_tx order W0 25 (TopCall 2%N [ISelfdestruct 2%N]))) < supply W0.
+Proof. exact never_mints_premises_hold. Qed.
+Print Assumptions C02_never_mints_premises_hold_example.
 
 (** Pure EVM code cannot touch the bank or the supply before the final commit. *)
 Theorem C02_pure_code_never_touches_the_bank_partial :
